@@ -122,6 +122,16 @@ func runC17(c *eng.Ctx) {
 		if ts == nil {
 			c.Undecided("Marshal has no type switch")
 		}
+		// the node being marshalled, whatever it is called: Marshal's first parameter and the variable the type switch binds
+		nodeNames := map[string]bool{}
+		if marshalDecl.Type.Params != nil && len(marshalDecl.Type.Params.List) > 0 && len(marshalDecl.Type.Params.List[0].Names) > 0 {
+			nodeNames[marshalDecl.Type.Params.List[0].Names[0].Name] = true
+		}
+		if as, ok := ts.Assign.(*ast.AssignStmt); ok && len(as.Lhs) == 1 {
+			if id, ok := as.Lhs[0].(*ast.Ident); ok {
+				nodeNames[id.Name] = true
+			}
+		}
 		for _, st := range ts.Body.List {
 			cc := st.(*ast.CaseClause)
 			for _, te := range cc.List {
@@ -161,7 +171,7 @@ func runC17(c *eng.Ctx) {
 								if call, ok := val.(*ast.CallExpr); ok {
 									if sel, ok := call.Fun.(*ast.SelectorExpr); ok && sel.Sel.Name == "JSONMarshal" && len(call.Args) == 1 {
 										if a, ok := res(call.Args[0]).(*ast.Ident); ok {
-											if a.Name == "expr" || a.Name == "e" {
+											if nodeNames[a.Name] {
 												mc.leaf = true
 											}
 										}
@@ -191,7 +201,7 @@ func runC17(c *eng.Ctx) {
 								}
 							}
 						case *ast.SelectorExpr:
-							if id, ok := res(v.X).(*ast.Ident); ok && id.Name == "e" {
+							if id, ok := res(v.X).(*ast.Ident); ok && nodeNames[id.Name] {
 								mc.reads[v.Sel.Name] = true
 							}
 						case *ast.CompositeLit:
@@ -1053,6 +1063,17 @@ func runC17(c *eng.Ctx) {
 		}
 		fromListener := func(v ssa.Value) bool { return fromListenerD(v, 0) }
 		n := 0
+		// the result variable: the cell whose content Parse's returns hand out (a named result, whatever it is called)
+		var resCell *ssa.Alloc
+		for _, b := range f.Blocks {
+			if r, ok := b.Instrs[len(b.Instrs)-1].(*ssa.Return); ok && len(r.Results) > 0 {
+				if u, ok := r.Results[0].(*ssa.UnOp); ok {
+					if a, ok := u.X.(*ssa.Alloc); ok {
+						resCell = a
+					}
+				}
+			}
+		}
 		fns := append([]*ssa.Function{f}, eng.Closures(f)...)
 		for _, fn := range fns {
 			for _, b := range fn.Blocks {
@@ -1062,9 +1083,9 @@ func runC17(c *eng.Ctx) {
 						named := false
 						switch a := x.Addr.(type) {
 						case *ssa.Alloc:
-							named = a.Comment == "stmt" && a.Parent() == f
+							named = resCell != nil && a == resCell
 						case *ssa.FreeVar:
-							named = a.Name() == "stmt"
+							named = resCell != nil && eng.FreeVarBinding(a) == ssa.Value(resCell)
 						}
 						if !named {
 							continue
@@ -1081,7 +1102,7 @@ func runC17(c *eng.Ctx) {
 							continue
 						}
 						if u, ok := x.Results[0].(*ssa.UnOp); ok {
-							if a, ok := u.X.(*ssa.Alloc); ok && a.Comment == "stmt" {
+							if a, ok := u.X.(*ssa.Alloc); ok && a == resCell {
 								continue
 							}
 						}
